@@ -143,17 +143,18 @@ def generate(rng, tier):
         p.update(levelmin=rng.choice([2, 2, 3]), levelmax=rng.choice([20, 21, 24, 30]), maxcells=min(p["maxcells"], 600), refine_p=min(p.get("refine_p", 0.3), 0.3),
                  bound_keys=None, ncpu=max(p["ncpu"], rng.choice([3, 5, 6])))
         p["bound_frac"] = sorted(rng.random() for _ in range(p["ncpu"] - 1))
-    deep_edge = (not deep) and (not tall) and rng.random() < 0.04
+    deep_edge = (not deep) and (not tall) and rng.random() < 0.06
     if deep_edge:
-        # a zoom refined beyond level 18 right below a face of the coarse search cubes, and a box whose lower edge lies a fraction
-        # of a 2**-18 step below that face: the cells in that sliver belong to the cube on the other side of the face
+        # a zoom refined to level 14-21 right below a face of the coarse search cubes, and a box whose lower edge lies a fraction of
+        # a finest cell below that face: the cells in that sliver belong to the cube on the other side of the face
         lm = rng.choice([2, 3])
         f = rng.randrange(1, 2 ** (lm - 1)) / 2 ** (lm - 1) if lm > 2 else 0.5
         ax = rng.randrange(3)
         pt = [round(rng.uniform(0.1, 0.9), 6) + 1.0 / 3e7 for _ in range(3)]
-        pt[ax] = f - 0.2 * 2.0 ** -19
-        p.update(ndim=3, ordering="hilbert", levelmin=lm, levelmax=rng.choice([20, 21]), maxcells=300, refine_p=0.1, nboundary=0, bound_keys=None,
-                 ncpu=rng.choice([4, 6, 8]), chain=pt, part=None, sink=None, ghost_p=rng.choice([0.0, 0.3]),
+        L_ = rng.choice([14, 16, 18, 20, 20, 21])
+        pt[ax] = f - 0.2 * 2.0 ** -L_
+        p.update(ndim=3, ordering="hilbert", levelmin=lm, levelmax=L_, maxcells=300, refine_p=0.1, nboundary=0, bound_keys=None,
+                 ncpu=rng.choice([6, 8, 12, 16, 24]), chain=pt, part=None, sink=None, ghost_p=rng.choice([0.0, 0.3]),
                  # (cell numbers beyond 2**53 at these depths: only variables whose written value does not encode a sign)
                  hydro_vars=["density", "pressure"], grav=False, rt_vars=None)
         p["bound_frac"] = sorted(rng.random() for _ in range(p["ncpu"] - 1))
@@ -197,7 +198,8 @@ def generate(rng, tier):
             iv = []
             for d, c in enumerate("xyz"):
                 if d == ax:
-                    lo, hi = f - rng.uniform(0.26, 0.45) * 2.0 ** -18, f + rng.uniform(0.2, 0.9) * 2.0 ** -(lm + rng.choice([0, 1, 2]))
+                    # (the lower edge lies just below the centre of the finest cell that touches the face)
+                    lo, hi = f - rng.uniform(0.6, 0.9) * 2.0 ** -p["levelmax"], f + rng.uniform(0.2, 0.9) * 2.0 ** -(lm + rng.choice([0, 1, 2]))
                 else:
                     w_ = rng.uniform(0.3, 0.9) * 2.0 ** -(lm + rng.choice([0, 1, 2]))
                     a_ = rng.random()
